@@ -147,6 +147,8 @@ SYSTEMS = {
     # G, star (m, x,y,z,vx,vy,vz), planets [(m, a,e,inc,Omega,omega,f)], N_active
     "V3": (1.0, (1.0, 0.1, -0.2, 0.05, 0.01, 0.02, -0.005), [(1e-3, 1.0, 0.1, 0.05, 0.3, 1.1, 0.4), (3e-4, 1.9, 0.05, 0.1, 2.0, 0.2, 2.5)], -1),
     "V3h": (1.0, (1.0, 0.0, 0.0, 0.0, 0.0, 0.0, 0.0), [(1e-2, 1.0, 0.15, 0.1, 0.3, 1.1, 0.4), (5e-3, 2.3, 0.1, 0.2, 2.0, 0.2, 2.5)], -1),
+    # the same with a softened potential (5th entry): the variational equations have to belong to the same potential
+    "V3s": (1.0, (1.0, 0.1, -0.2, 0.05, 0.01, 0.02, -0.005), [(1e-3, 1.0, 0.1, 0.05, 0.3, 1.1, 0.4), (3e-4, 1.9, 0.05, 0.1, 2.0, 0.2, 2.5)], -1, 0.15),
     "V4t": (1.0, (1.0, 0.1, -0.2, 0.05, 0.01, 0.02, -0.005), [(1e-3, 1.0, 0.1, 0.05, 0.3, 1.1, 0.4), (3e-4, 1.9, 0.05, 0.1, 2.0, 0.2, 2.5), (0.0, 3.1, 0.08, 0.07, 4.0, 3.0, 5.0)], 3),
 }
 STEP = {"a": 2e-3, "e": 2e-3, "inc": 2e-3, "Omega": 2e-3, "omega": 2e-3, "f": 2e-3, "lambda": 2e-3, "h": 2e-3, "k": 2e-3, "ix": 2e-3, "iy": 2e-3,
@@ -155,7 +157,7 @@ STEP = {"a": 2e-3, "e": 2e-3, "inc": 2e-3, "Omega": 2e-3, "omega": 2e-3, "f": 2e
 
 def initial(sysn, shifts):
     """shifts: list of (particle index, kind, name, delta) with kind in {'cart','orb','pal'} -> bodies"""
-    G, star, planets, na = SYSTEMS[sysn]
+    G, star, planets, na = SYSTEMS[sysn][:4]
     star = list(star)
     star_out = list(star)
     out = [star_out]
@@ -199,6 +201,8 @@ def build(rebound, sysn, shifts, integ, o):
         sim.add(m=b[0], x=b[1], y=b[2], z=b[3], vx=b[4], vy=b[5], vz=b[6])
     if na >= 0:
         sim.N_active = na
+    if len(SYSTEMS[sysn]) > 4:
+        sim.softening = SYSTEMS[sysn][4]
     lattice.apply_options(sim, integ, o)
     P = 2 * math.pi
     sim.dt = P / 40
@@ -223,14 +227,16 @@ class Trajectories:
 
     def shadow(self, sysn, shifts, integ, o, n):
         sim = build(self.rebound, sysn, shifts, integ, o)
-        if self.com:
+        if self.com == "hel":
+            sim.move_to_hel()
+        elif self.com:
             sim.move_to_com()
         advance(sim, integ, self.nsteps)
         return state(sim, n)
 
     def __call__(self, task):
         sysn, integ, o, order, tp, spec = task[:6]
-        self.com = len(task) > 6 and task[6]        # move the system (and its variations) to the centre-of-mass frame first
+        self.com = len(task) > 6 and task[6]        # move the system (and its variations) to the centre-of-mass (True) / heliocentric ("hel") frame first
         rb.quiet()
         rebound = self.rebound
         sim = build(rebound, sysn, [], integ, o)
@@ -252,7 +258,9 @@ class Trajectories:
             v = sim.add_variation(order=2, first_order=v1, first_order_2=v2, testparticle=(spec[0][0] if tp else -1))
             if spec[0][1] != "cart":
                 v.vary(spec[0][0], spec[0][2], spec[1][2])
-        if self.com:
+        if self.com == "hel":
+            sim.move_to_hel()
+        elif self.com:
             sim.move_to_com()
         advance(sim, integ, self.nsteps)
         sc = math.exp(v.lrescale) if v.lrescale else 1.0
@@ -313,6 +321,103 @@ class Trajectories:
         return {"bs": 1e-4}.get(integ, 1e-4)
 
 
+# --------------------------------------------------------------------------------------------- A' vary() with a primary
+class VaryPrimary:
+    """Variation.vary(index, name[, name2], primary=...) for a moon whose elements refer to its planet: the variational particle must be
+    the derivative of the particle that Particle(primary=planet, elements) builds (that element map itself is C11's subject)"""
+    ORB = ("a", "e", "inc", "Omega", "omega", "f")
+    PAL = ("a", "lambda", "h", "k", "ix", "iy")
+
+    def __init__(self, rebound):
+        self.rebound = rebound
+
+    def system(self):
+        sim = self.rebound.Simulation()
+        sim.add(m=1.0, x=0.1, y=-0.2, z=0.05, vx=0.01, vy=0.02, vz=-0.005)
+        sim.add(m=1e-2, a=1.0, e=0.1, inc=0.05, Omega=0.3, omega=1.1, f=0.4)
+        return sim
+
+    def moon(self, sim, kind, vals, m):
+        if kind == "orb":
+            return self.rebound.Particle(simulation=sim, primary=sim.particles[1], m=m, **dict(zip(self.ORB, vals)))
+        kw = dict(zip(self.PAL, vals))
+        kw["l"] = kw.pop("lambda")
+        return self.rebound.Particle(simulation=sim, primary=sim.particles[1], m=m, **kw)
+
+    def __call__(self, task):
+        kind, n1, n2, tp = task
+        rb.quiet()
+        names = self.ORB if kind == "orb" else self.PAL
+        base = [0.04, 0.2, 0.3, 0.7, 1.9, 0.6] if kind == "orb" else [0.04, 2.2, 0.12, -0.07, 0.2, 0.1]
+        m0 = 1e-5
+
+        def cart(d1, d2):
+            sim = self.system()
+            vals = list(base)
+            m = m0
+            for nm, d in ((n1, d1), (n2, d2)):
+                if nm is None or d == 0.0:
+                    continue
+                if nm == "m":
+                    m += d
+                else:
+                    vals[names.index(nm)] += d
+            q = self.moon(sim, kind, vals, m)
+            return [q.m, q.x, q.y, q.z, q.vx, q.vy, q.vz]
+        sim = self.system()
+        sim.add(self.moon(sim, kind, base, m0))
+        if n2 is None:
+            v = sim.add_variation(testparticle=(2 if tp else -1))
+            v.vary(2, n1, primary=sim.particles[1])
+        else:
+            va = sim.add_variation(testparticle=(2 if tp else -1))
+            va.vary(2, n1, primary=sim.particles[1])
+            vb = va
+            if n2 != n1:
+                vb = sim.add_variation(testparticle=(2 if tp else -1))
+                vb.vary(2, n2, primary=sim.particles[1])
+            v = sim.add_variation(order=2, first_order=va, first_order_2=vb, testparticle=(2 if tp else -1))
+            v.vary(2, n1, n2, primary=sim.particles[1])
+        q = v.particles[0 if tp else 2]
+        got = [q.m, q.x, q.y, q.z, q.vx, q.vy, q.vz]
+
+        def step(nm):
+            return 1e-6 if nm == "m" else (2e-4 if nm == "a" else 1e-3)
+
+        def fd(sc):
+            h1 = step(n1) * sc
+            if n2 is None:
+                A, B = cart(h1, 0), cart(-h1, 0)
+                return [(a - b) / (2 * h1) for a, b in zip(A, B)]
+            h2 = step(n2) * sc
+            if n1 == n2:
+                A, C, B = cart(h1, 0), cart(0, 0), cart(-h1, 0)
+                return [(a - 2 * c + b) / (h1 * h1) for a, b, c in zip(A, B, C)]
+            PP, PM, MP, MM = cart(h1, h2), cart(h1, -h2), cart(-h1, h2), cart(-h1, -h2)
+            return [(a - b - c + d) / (4 * h1 * h2) for a, b, c, d in zip(PP, PM, MP, MM)]
+        D1, D2 = fd(1.0), fd(0.5)
+        ref = [(4 * y - x) / 3 for x, y in zip(D1, D2)]
+        sp = max(abs(x) for x in ref[1:4]) + 1e-300
+        sv = max(abs(x) for x in ref[4:7]) + 1e-300
+        tol = 1e-6 if n2 is None else 2e-4
+        c0 = cart(0, 0)
+        hmin = 0.5 * min(step(n1), step(n2) if n2 else step(n1))
+        for c in range(7):
+            s_ = 1.0 if c == 0 else (sp if c < 4 else sv)
+            # rounding noise of the difference quotient itself (a second derivative may be exactly zero, e.g. d2x/da2)
+            noise = 256 * 2.2e-16 * (abs(c0[c]) + 1e-300) / (hmin if n2 is None else hmin * hmin)
+            if not (abs(got[c] - ref[c]) <= tol * s_ + 0.05 * abs(D2[c] - D1[c]) / 3 + noise):
+                return "vary(2, %s%s, primary=planet)%s: variational particle component %s is %.12g, differentiating Particle(primary=planet, ...) gives %.12g" % (
+                    n1, "" if n2 is None else ", " + n2, " on a test-particle variation" if tp else "", (["m"] + CART)[c], got[c], ref[c])
+        # the other particles of a full set stay untouched
+        if not tp:
+            for i in (0, 1):
+                w = v.particles[i]
+                if any(getattr(w, c) != 0.0 for c in ["m"] + CART):
+                    return "vary(2, %s, primary=planet) also changed variational particle %d" % (n1, i)
+        return None
+
+
 # --------------------------------------------------------------------------------------------- C rescaling
 class Rescale:
     def __init__(self, rebound):
@@ -362,12 +467,19 @@ class Megno:
         self.rebound = rebound
 
     def __call__(self, task):
-        integ, o, norb = task
+        integ, o, norb = task[:3]
+        extra = task[3] if len(task) > 3 else None      # a further, unrelated variation added before / after init_megno()
         rb.quiet()
         sim = build(self.rebound, "V3", [], integ, o)
+        if extra == "before":
+            sim.add_variation().particles[1].x = 1e-3
+        if extra == "t0":
+            sim.t = 50 * 2 * math.pi        # MEGNO started on a simulation whose clock does not read zero
         sim.init_megno(seed=7)
+        if extra == "after":
+            sim.add_variation().particles[2].vy = 1e-3
         if integ == "ias15":
-            sim.integrate(norb * 2 * math.pi, exact_finish_time=0)
+            sim.integrate(sim.t + norb * 2 * math.pi, exact_finish_time=0)
         else:
             sim.steps(int(norb * 40))
         return sim.megno(), sim.lyapunov()
@@ -437,6 +549,13 @@ def run(ctx):
                     tasks.append((sysn, integ, o, 2, False, pr))
                     if sysn == "V4t" and i == npl and pr[0][0] == npl and pr[1][0] == npl:
                         tasks.append((sysn, integ, o, 2, True, pr))
+    # softened potential
+    for integ, o in integs1:
+        for i, nm in ((1, "x"), (2, "vy"), (1, "m"), (0, "x")):
+            tasks.append(("V3s", integ, o, 1, False, ((i, "cart", nm),)))
+    for integ, o in integs2:
+        for pr in (((1, "cart", "x"), (1, "cart", "x")), ((1, "cart", "x"), (2, "cart", "vy")), ((1, "cart", "m"), (2, "cart", "x"))):
+            tasks.append(("V3s", integ, o, 2, False, pr))
     # variations carried through move_to_com() (the shift depends on the masses and on the varied coordinates)
     for sysn in ("V3", "V3h"):
         for integ, o in integs2:
@@ -448,6 +567,12 @@ def run(ctx):
                         tasks.append((sysn, integ, o, 1, False, ((i, "pal" if nm == "lambda" else "orb", nm),), True))
             for pr in (((1, "cart", "m"), (1, "cart", "m")), ((1, "cart", "m"), (1, "cart", "x")), ((1, "orb", "m"), (1, "orb", "a")), ((1, "orb", "a"), (1, "orb", "e")), ((1, "cart", "x"), (2, "cart", "m"))):
                 tasks.append((sysn, integ, o, 2, False, pr, True))
+            # ... and through move_to_hel() (linear: every variation is shifted by the variation of particle 0)
+            for i in (0, 1):
+                for nm in ("x", "vy"):
+                    tasks.append((sysn, integ, o, 1, False, ((i, "cart", nm),), "hel"))
+            tasks.append((sysn, integ, o, 1, False, ((1, "orb", "a"),), "hel"))
+            tasks.append((sysn, integ, o, 2, False, ((0, "cart", "x"), (1, "cart", "x")), "hel"))
     if quick:
         # the quick tier keeps every first-order case and every second-order case on V3 and the test-particle system; V3h second order is thorough only
         tasks = [t for t in tasks if not (t[3] == 2 and t[0] == "V3h")]
@@ -463,7 +588,7 @@ def run(ctx):
             sysn, integ, o, order, tp, spec = t[:6]
             what = "+".join("%d.%s%s" % (s[0], s[2], {"cart": "", "orb": "(orbital)", "pal": "(Pal)"}[s[1]]) for s in spec)
             lab = "%s %s%s order %d%s, parameter %s, %d steps" % (sysn, integ, o, order, " test-particle variation" if tp else "", what, nsteps)
-            fam = "%s:order%d:%s%s%s" % (integ, order, "+".join(sorted({s[1] for s in spec})), ":testparticle" if tp else "", ":move_to_com" if len(t) > 6 and t[6] else "")
+            fam = "%s:order%d:%s%s%s" % (integ, order, "+".join(sorted({s[1] for s in spec})), ":testparticle" if tp else "", (":move_to_hel" if t[6] == "hel" else ":move_to_com") if len(t) > 6 and t[6] else "")
             case = {"system": sysn, "integrator": [integ, o], "order": order, "testparticle": tp, "spec": [list(s) for s in spec], "steps": nsteps}
             if r[0] != "ok":
                 ctx.violation("trajectory-%s:%s" % (r[0], fam), "%s: %s %s" % (lab, r[0], str(r[1])[-400:]), case)
@@ -489,6 +614,23 @@ def run(ctx):
                 what = "+".join("%d.%s" % (s[0], s[2]) for s in spec)
                 ctx.violation("trajectory:%s:%s" % (fam, "+".join(s[2] for s in spec)), "%s BS order 2%s, parameter %s, %d steps: second-order variational particles differ from those of IAS15 by %.3g of the largest component (allowed 1e-6)" % (
                     sysn, " test-particle variation" if tp else "", what, ns, d), {"system": sysn, "integrator": ["bs", {}], "order": 2, "testparticle": tp, "spec": [list(s) for s in spec], "steps": ns})
+    # ---- A' vary() relative to a primary that is not particle 0
+    vt = []
+    for kind, names in (("orb", ("m",) + VaryPrimary.ORB), ("pal", ("m",) + VaryPrimary.PAL)):
+        for tp in (False, True):
+            for n1 in names:
+                vt.append((kind, n1, None, tp))
+            for n1, n2 in itertools.combinations_with_replacement(names, 2):
+                if tp and (n1 == "m" or n2 == "m"):
+                    continue
+                vt.append((kind, n1, n2, tp))
+    vres = pool.run_tasks(VaryPrimary(rebound), vt, timeout=120, chunk=8)
+    for t, r in zip(vt, vres):
+        case = {"vary_primary": list(t)}
+        if r[0] != "ok":
+            ctx.violation("vary-primary-%s:%s" % (r[0], t[0]), "%s in vary(primary=) case %s: %s" % (r[0], t, str(r[1])[-300:]), case)
+        elif r[1]:
+            ctx.violation("vary-primary:%s:order%d%s" % (t[0], 1 if t[2] is None else 2, ":testparticle" if t[3] else ""), r[1], case)
     # ---- C
     rt = [(integ, o, comp, 300) for integ, o in [("ias15", {}), ("bs", {"eps_rel": 1e-11, "eps_abs": 1e-11}), ("leapfrog", {})] + wh for comp in ("x", "vy")]
     rres = pool.run_tasks(Rescale(rebound), rt, timeout=600, chunk=1)
@@ -502,9 +644,22 @@ def run(ctx):
     # ---- D
     norb = 300 if quick else 3000
     mt = [(integ, o, norb) for integ, o in [("ias15", {})] + wh]          # MEGNO is documented for IAS15 and WHFast only
+    mt += [(integ, o, norb, extra) for integ, o in [("ias15", {})] + wh for extra in ("before", "after")]
+    mt += [(integ, o, norb, "t0") for integ, o in [("ias15", {}), ("whfast", {"corrector": 0, "safe_mode": 1})]]
     mres = pool.run_tasks(Megno(rebound), mt, timeout=1800, chunk=1)
+    mplain = {(t[0], tuple(sorted(t[1].items()))): r[1] for t, r in zip(mt, mres) if len(t) == 3 and r[0] == "ok"}
     for t, r in zip(mt, mres):
-        lab = "%s%s over %d orbits" % t
+        lab = "%s%s over %d orbits" % t[:3] + (" with a second variation added %s init_megno()" % t[3] if len(t) > 3 else "")
+        if r[0] == "ok" and len(t) > 3 and t[3] == "t0":
+            if not abs(r[1][0] - 2.0) < (0.15 if quick else 0.05):
+                ctx.violation("megno:nonzero-start-time:%s" % t[0], "%s%s over %d orbits, init_megno() called at t = 50 periods: MEGNO = %r on a regular two-planet system (expected 2; %r when started at t=0)" % (
+                    t[0], t[1], t[2], r[1][0], (mplain.get((t[0], tuple(sorted(t[1].items())))) or [None])[0]), {"megno": [t[0], t[1], t[3]]})
+            continue
+        if r[0] == "ok" and len(t) > 3:
+            ref = mplain.get((t[0], tuple(sorted(t[1].items()))))
+            if ref is not None and not (abs(r[1][0] - ref[0]) <= 1e-9 * abs(ref[0])):
+                ctx.violation("megno:second-variation:%s:%s" % (t[0], t[3]), "%s: MEGNO = %r, without the unrelated variation %r" % (lab, r[1][0], ref[0]), {"megno": [t[0], t[1], t[3]]})
+            continue
         if r[0] != "ok":
             ctx.violation("megno-%s:%s" % (r[0], t[0]), "%s: %s %s" % (lab, r[0], str(r[1])[-300:]), {"megno": [t[0], t[1]]})
             continue
@@ -517,7 +672,8 @@ def run(ctx):
     cov = {
         "evaluations": len(at) + nB * 5 + len(rt) * 2 + len(mt),
         "distinct_nontrivial": len(at) + nB + len(rt) + len(mt),
-        "rule": "A: constructor x element point x (G, masses) x primary state; B: (system, integrator setting, order, varied particle, parameter or pair, test-particle flag, horizon), each with 4-8 shadow runs; C: rescaling cases; D: MEGNO runs",
+        "vary_primary_cases": len(vt),
+        "rule": "A: constructor x element point x (G, masses) x primary state; A': Variation.vary with the planet of a moon as primary x every element (orbital and Pal) and pair x full-set / test-particle variation; B: (system, integrator setting, order, varied particle, parameter or pair, test-particle flag, horizon), each with 4-8 shadow runs; C: rescaling cases; D: MEGNO runs",
         "constructors": len(cons), "constructor_cases": len(at), "trajectory_cases": nB, "rescale_cases": len(rt), "megno_cases": len(mt),
         "worst_over_allowed": {k: round(v, 3) for k, v in sorted(wB.items())}, "exhaustive": True, "samples": [list(map(str, tasks[0]))],
     }
